@@ -6,7 +6,8 @@
   transport sink (ThriftMux or Kafka).  `ops` is any
   finite sequence of atomic steps of the transport — requests with or without a deadline event
   (already passed or not), deadline events firing before or after transmission, send-loop
-  iterations, time-out callbacks, *any* frame from the peer (`process mtype tag`: every type,
+  iterations (atomic, or split at the one yield point `socket.write`: `wbegin` … `wend`, with any other
+  step in between), time-out callbacks, *any* frame from the peer (`process mtype tag`: every type,
   every tag including 0, 1, unknown, already answered, not yet transmitted), pings, re-opens —
   subject only to `opsOk`: each label is one the code can take in the state it is taken in
   (a send needs a queued item, a time-out callback needs a fired event with a subscription, the
@@ -283,5 +284,11 @@ example : comp.wf ⟨2 ^ 24 - 1, .kafka⟩
 example : ((comp.modelTrace ⟨2 ^ 24 - 1, .kafka⟩
     [.req .ev 0, .send, .fire 0, .notify 0, .req .noev 0, .send]).map (fun p => p.2.tagmap)) =
     [[2], [2], [2], [2], [2, 3], [2, 3]] := by decide
+
+/-- the write as a yield point: the send loop blocks in the write of request 0 (`wbegin`: from
+    then on the frame counts as written), the peer answers its tag while the call is blocked, the
+    tag is reused by request 1, whose frame is written after the blocked call returned -/
+example : comp.wf ⟨2 ^ 24 - 1, .thriftmux⟩
+    [.req .noev 0, .wbegin, .process (-2) 2, .req .noev 2, .quiet, .wend, .send, .quiet] = true := by decide
 
 end Scales.TagPool
